@@ -1,15 +1,17 @@
 SPECIFICATION Spec
-CONSTANTS N = 86400 MaxSteps = 6 InvertStartBySecTruncation = FALSE CaptureAtJoinEpoch = FALSE CacheIgnoresEpoch = FALSE LocalTimeEpoch = FALSE MaxJoinSteps = 4
+CONSTANTS N = 86400 MaxSteps = 6 InvertStartBySecTruncation = FALSE CaptureAtJoinEpoch = FALSE CacheIgnoresEpoch = FALSE LocalTimeEpoch = FALSE MemoIgnoresSite = FALSE MaxJoinSteps = 4
 CONSTANT Lons <- LonsAll
 CONSTANT Theta0s <- ThetasAll
 CONSTANT StartSecs <- Secs60
 CONSTANT PriorAngles <- OnePrior
 CONSTANT Zones <- ZonesUtc
+CONSTANT PriorLonShifts <- OneShift
 CONSTANT Plans <- NoPlan
 CONSTANT Dts <- DtsThorough
 INVARIANT SiteEpochAgrees
 INVARIANT StartInversionExact
 INVARIANT ConvertIgnoresHistory
+INVARIANT SiteFromCurrentConfig
 INVARIANT SiteFixed
 INVARIANT VelIsRotation
 INVARIANT Emit
